@@ -235,6 +235,10 @@ func metaLeaf(r *Rng, key string, tag *int) *knode {
 		n := &knode{Key: key, Typ: 'L', Size: 4, Count: 1, Data: be32(uint32(Pick(r, []int{0, 1, 2, 3, 4, 9})))}
 		return n
 	case "GPSP":
+		if r.Chance(0.15) {
+			// the format's own special values: 9999 is GoPro's "no precision" marker
+			return &knode{Key: key, Typ: 'S', Size: 2, Count: 1, Data: be16(Pick(r, []uint16{9999, 0, 65535, 1, 9998, 10000}))}
+		}
 		return &knode{Key: key, Typ: 'S', Size: 2, Count: 1, Data: be16(uint16(100 + *tag))}
 	case "GPSU":
 		return &knode{Key: key, Typ: 'U', Size: 16, Count: 1, Data: randDate(r)}
